@@ -233,6 +233,127 @@ def compare_features(chk, viol, cfg, rng, orig, back, mk_info):
             chk.case((cfg.key, canon), nontriv or any(s.mux_val is not None or s.is_float or s.values for s in fo.signals))
 
 
+# ----------------------------------------------------------------------------------------------------------------------
+# histories: a matrix (freshly built, or as the format's own reader returned it) is exported, its value interpretation is
+# edited IN PLACE, and the same objects are exported again.  The file must describe the current state: it has to read back
+# with the edited features (compare_features) and like the export of a fresh deep copy of the same matrix.
+def edit_values_in_place(rng, C, cfg, buses):
+    frames = [(m, f) for m in buses.values() for f in m.frames]
+    m, fr = rng.choice(frames)
+    ecus = [e.name for e in m.ecus]
+    s = rng.choice(fr.signals)
+    sym_or_kcd_mux = s.is_multiplexer and cfg.fmt in ("sym", "kcd")
+    kind = rng.choice(["values-replace", "values-replace", "values-add", "values-clear", "scaling", "unit", "sign", "receivers", "senders"])
+    lo, hi = s.calculate_raw_range()
+    if kind.startswith("values"):
+        if s.is_float or (s.is_multiplexer and cfg.fmt == "sym"):
+            return None
+        if kind == "values-replace":
+            keys = sorted({rng.randrange(max(int(lo), -3), min(int(hi), 12) + 1) for _ in range(rng.randrange(1, 4))})
+            s.values = {k: "New%d_%d" % (k if k >= 0 else -k, rng.randrange(100)) for k in keys}     # a NEW dict object
+        elif kind == "values-add":
+            s.add_values(rng.randrange(max(int(lo), 0), min(int(hi), 12) + 1), "Added%d" % rng.randrange(100))
+        else:
+            if not s.values:
+                return None
+            s.values = {}
+    elif kind == "scaling":
+        if sym_or_kcd_mux or s.is_multiplexer:
+            return None
+        s.factor = fmt_rt.matgen.rand_decimal(rng, 9, allow_neg=False, nonzero=True)
+        s.offset = fmt_rt.matgen.rand_decimal(rng, 9)
+        if not s.is_float:
+            a, b = s.offset + lo * s.factor, s.offset + hi * s.factor
+            s.min, s.max = min(a, b), max(a, b)
+    elif kind == "unit":
+        if s.is_multiplexer:
+            return None
+        s.unit = rng.choice(["", "mV", "1/min", "l/100km", "deg"])[: cfg.feats.get("unit_max", 100)]
+    elif kind == "sign":
+        if s.is_float or s.is_multiplexer or s.values:
+            return None
+        s.is_signed = not s.is_signed
+        lo, hi = s.calculate_raw_range()
+        a, b = s.offset + lo * s.factor, s.offset + hi * s.factor
+        s.min, s.max = min(a, b), max(a, b)
+    elif kind == "receivers":
+        if s.is_multiplexer or not ecus:
+            return None
+        e = rng.choice(ecus)
+        if e in s.receivers:
+            s.del_receiver(e)
+        else:
+            s.add_receiver(e)
+        fr.receivers = []
+        fr.update_receiver()
+    else:
+        if not ecus:
+            return None
+        e = rng.choice(ecus)
+        if e in fr.transmitters:
+            if len(fr.transmitters) < 2:
+                return None
+            fr.del_transmitter(e)
+        else:
+            fr.add_transmitter(e)
+    return kind
+
+
+def history_stage(chk, viol, C, F, rng):
+    known = {k.get("key") for k in chk.known}
+    per_cfg = 6 if chk.tier != "thorough" else 40
+    for cfg in fmt_rt.CONFIGS:
+        if "C07" not in cfg.props:
+            continue
+        for it in range(per_cfg):
+            reader_made = it % 2 == 1
+            if reader_made:
+                # "read a file, edit, write it again": the matrix is what this format's own reader returned
+                m, _ = fmt_rt.gen_chain_source(rng, C, F, cfg, cfg, 12)
+                if m is None or fmt_rt.inside_envelope(cfg, m) is not None:
+                    chk.count("history-source-skipped:" + cfg.fmt)
+                    continue
+                buses = {"Chain": m} if cfg.cluster else {"": m}
+            else:
+                buses = fmt_rt.gen_case(rng, C, cfg, digits=12, nbuses=1)
+            chk.count("history-source:%s" % ("reader-made" if reader_made else "built"))
+            trail = []
+
+            def mk_info(fr=None, sig=None, cfg=cfg, it=it, trail=trail, reader_made=reader_made):
+                d = {"format": cfg.key, "options": cfg.opts, "iteration": it, "edits": list(trail),
+                     "history": ("matrix read from a %s file, " % cfg.fmt if reader_made else "matrix built through the API, ")
+                     + "exported, then edited in place and the SAME objects exported again"}
+                if fr is not None:
+                    d["frame"] = fmt_rt.frame_brief(fr)
+                if sig is not None:
+                    d["signal"] = sig
+                return d
+            skip = lambda *a, **k: chk.count("round-trip-raises (C06's subject)")
+            if round_trip(F, cfg, buses, skip, mk_info) is None:
+                continue
+            for step in range(3):
+                what = edit_values_in_place(rng, C, cfg, buses)
+                if what is None:
+                    chk.count("history-edit-not-applicable")
+                    continue
+                trail.append(what)
+                chk.count("history-edit:" + what)
+                fresh = copy.deepcopy(buses)
+                state = copy.deepcopy(buses)
+                r_fresh = round_trip(F, cfg, fresh, skip, mk_info)
+                r_used = round_trip(F, cfg, buses, skip, mk_info)
+                if r_fresh is None or r_used is None or r_fresh[1] is None or r_used[1] is None:
+                    break
+                chk.count("history-exports:" + cfg.fmt)
+                a = {n: fmt_rt.matgen.normal_form(x)["frames"] for n, x in r_used[1].items()}
+                b = {n: fmt_rt.matgen.normal_form(x)["frames"] for n, x in r_fresh[1].items()}
+                if a != b:
+                    viol(cfg.kbase + "-reused-object-differs-from-fresh", "after an in-place edit (%s) the export of the same objects reads back differently "
+                         "from the export of a fresh copy of the same matrix" % what, mk_info(),
+                         [list(map(str, x)) for x in fmt_rt.matgen.diff(b, a)[:6]], "paths: fresh value vs re-used value")
+                compare_features(chk, lambda key, *rest: viol(key if key in known else "after-edit:" + key, *rest), cfg, rng, state, r_used[1], mk_info)
+
+
 def run(chk):
     chk.rule = ("same configurations and envelopes as C06 (json only with jsonExportAll); factors and offsets with 1..12 significant digits, exponents "
                 "-6..2 (so that str(Decimal) uses exponent forms), negative offsets, width classes 1..64 with float32/float64, value tables with negative "
@@ -301,6 +422,7 @@ def run(chk):
             compare_features(chk, viol, cfg, rng, orig, r[1], mk_info)
             tie_cases.append((cfg, orig, r[0], r[1]))
     chain_stage(chk, viol, C, F, rng, "C07", 12, compare_features, "value", tie_cases)
+    history_stage(chk, viol, C, F, rng)
     chk.sample({"format": "kcd", "signal": "factor 0.123456789, offset 1.00000001 -> slope/intercept text must give the same Decimals"})
     chk.sample({"format": "json-all", "frame": "multiplexer + groups 0 and 5", "re-read": "is_multiplexer / mux_val per signal, decode selects the group"})
     chk.sample({"format": "sym", "signal": "Signal(is_float=True) with default is_signed=True, 32 bit -> type word float"})
